@@ -6,6 +6,7 @@ import (
 	"net/netip"
 	"os"
 	"path/filepath"
+	"strings"
 	"testing/synctest"
 	"time"
 
@@ -146,9 +147,14 @@ func handlerFrame(r *rand.Rand, e gen.Env, which int) gen.Frame {
 		sp, dp := uint16(68), uint16(67)
 		if m.Op == 2 {
 			sp, dp = 67, 68
+			if r.Intn(3) == 0 {
+				sp, dp, k = 67, 67, k+"-to-server-port" // a server's message relayed to the server port (what a relay agent receives)
+			}
+		} else if r.Intn(12) == 0 {
+			sp, dp, k = 68, 68, k+"-to-client-port" // a client message seen on the client port
 		}
 		f := udp4(sp, dp, m.Bytes(), "dhcp:"+k)
-		if k == "discover" || k == "request-selecting" || k == "request-reboot" || k == "decline" {
+		if strings.HasPrefix(k, "discover") || strings.HasPrefix(k, "request-selecting") || strings.HasPrefix(k, "request-reboot") || strings.HasPrefix(k, "decline") {
 			// DHCP clients without an address send from 0.0.0.0
 			f.B = refdec.Ether(bc, mac, 0x0800, 0, refdec.IP4(refdec.IP4Hdr{TTL: 64, Proto: 17, Src: netip.AddrFrom4([4]byte{}), Dst: netip.AddrFrom4([4]byte{255, 255, 255, 255})}, refdec.UDP(sp, dp, m.Bytes())))
 		}
